@@ -177,9 +177,26 @@ def pool(jobs=None):
 
 
 def shutdown():
+    """terminate the worker processes (orphaned workers would keep stdout open and make callers hang)"""
     global _POOL
     if _POOL is not None:
-        _POOL.shutdown(wait=False, cancel_futures=True)
+        procs = list(getattr(_POOL, "_processes", {}).values())
+        try:
+            _POOL.shutdown(wait=False, cancel_futures=True)
+        except Exception:
+            pass
+        for p in procs:
+            try:
+                p.terminate()
+            except Exception:
+                pass
+        for p in procs:
+            try:
+                p.join(2)
+                if p.is_alive():
+                    p.kill()
+            except Exception:
+                pass
         _POOL = None
 
 
